@@ -215,6 +215,15 @@ def child_main(rank, size, rfd, wfd, spec, scratch, pkgdir):
         state['on'] = True
         import numpy as np
         np.random.seed((int(spec.get('npseed', 0)) * 1000 + rank) % (2 ** 32))
+        # sympy's numerical equality tests (.equals) draw test points from its own generator, and some libraries use
+        # Python's: both are seeded from OS entropy per process - a source of nondeterminism the simulator must own
+        import random as _random
+        _random.seed(int(spec.get('npseed', 0)) * 1000 + rank + 17)
+        try:
+            import sympy.core.random as _scr
+            _scr.seed(int(spec.get('npseed', 0)) * 1000 + rank + 29)
+        except Exception:
+            pass
         from . import ops
         ops.run_program(spec['program'], rank, size, scratch, report, comm, state, spec.get('op_plans'))
     except BaseException as e:   # noqa: B902 - SystemExit/KeyboardInterrupt from ESR are failures too
